@@ -43,7 +43,10 @@ class Dim(Ty):
     """
     @staticmethod
     def upgrade(old):
-        return Dim(*[x.name for x in old.objects])
+        dims = [x.name for x in old.objects]
+        if 1 in dims:  # wires of another kind of type, e.g. PRO(1)
+            raise TypeError(messages.type_err(Dim, old))
+        return Dim(*dims)
 
     def __init__(self, *dims):
         dims = map(lambda x: x if isinstance(x, monoidal.Ob) else Ob(x), dims)
